@@ -63,7 +63,14 @@ func structuredValue(mode int, kind string, class, salt int) (src any, dst any, 
 		return m, &out, func() any { return out }, g.features()
 	case "any":
 		var t any
-		switch g.r.n(4) {
+		switch g.r.n(5) {
+		case 4:
+			// a document that is one number: every proper prefix of it is a valid, different document
+			if mode == mJSON {
+				t = json.Number(bigJSONNumbers[g.r.n(3)])
+			} else {
+				t = int(g.i64())
+			}
 		case 0:
 			t = g.str()
 		case 1:
@@ -190,9 +197,9 @@ func (c *run) structured() {
 			c.violate("no-error", whoC, "%s consumer accepted an unsupported destination (%s) for %d bytes of input", c.codec, sp.Kind, len(encoded))
 		}
 		return
-	case in.faulty && len(in.st.Data) < valueEnd:
+	case in.faulty && in.failAt < valueEnd:
 		if err == nil {
-			c.violate("short-success", whoC+":read-error", "%s consumer reported success although the stream failed at offset %d, before the end of the encoded value (%d)", c.codec, len(in.st.Data), valueEnd)
+			c.violate("short-success", whoC+":read-error", "%s consumer reported success although the stream failed at offset %d, before the end of the encoded value (%d)", c.codec, in.failAt, valueEnd)
 		} else if !kernel.IsInjected(err) {
 			c.env.Probe("injected-error-replaced")
 		}
